@@ -18,7 +18,7 @@ from vlib import log, MachineryError
 DEL = ['delete_vertex', 'delete_edge', 'delete_face', 'delete_cell']
 SWAP = ['swap_vertices', 'swap_edges', 'swap_faces', 'swap_cells']
 BUT = ['enable_vbu', 'enable_ebu', 'enable_fbu']
-ADDS = ['add_vertex', 'add_edge', 'add_face_v', 'add_cell_closed']
+ADDS = ['add_vertex', 'add_n_vertices', 'add_edge', 'add_face_v', 'add_cell_closed']
 ALLSEEDS = list(range(12))
 EXTRA = [9, 10, 11]            # prism, edge-sharing tets, loop edge / valence-1 face / 2-gon
 MAINSEEDS = [1, 2, 3, 4, 5, 6, 7, 8]
